@@ -208,6 +208,24 @@ def initrects_jobs(bits, tier):
     return js
 
 
+def band_jobs(bits, tier):
+    """(lead) the three overlap procedures called directly, both bands in canonical form, every coordinate free"""
+    js = []
+    ks = [(1, 1), (2, 1), (1, 2), (2, 2)] if tier == "quick" else [(1, 1), (2, 1), (1, 2), (2, 2), (3, 1), (1, 3), (3, 2), (2, 3)]
+    if bits == 16 and tier == "quick":
+        ks = [(2, 2)]
+    for op, nm in ((0, "intersect_o"), (1, "union_o"), (2, "subtract_o")):
+        for k1, k2 in ks:
+            js.append(Job("band%d.%s.k%d%d" % (bits, nm, k1, k2), "C05/band.c",
+                          defines={"VR_BITS": bits, "VB_OP": op, "VB_K1": k1, "VB_K2": k2}, kind="bounded",
+                          bound="%d and %d rectangles in the two bands" % (k1, k2), functions=["pixman_region_" + nm],
+                          unwind=8 if max(k1, k2) < 3 else 10, timeout=1800, min_props=5,
+                          domain="%s; two canonical bands of %d / %d rectangles, y1<y2 free; ghost x: appended boxes == op of the bands, "
+                                 "appended boxes non-empty/sorted/separated; destination pre-sized (allocation asserted unreachable)"
+                                 % (coord(bits), k1, k2)))
+    return js
+
+
 def conv_jobs(tier):
     js = []
     for d, name in ((0, "pixman_region16_copy_from_region32"), (1, "pixman_region32_copy_from_region16")):
@@ -233,6 +251,7 @@ def jobs(tier):
         js += op_jobs(bits, tier)
         js += leaf_jobs(bits, tier)
         js += initrects_jobs(bits, tier)
+        js += band_jobs(bits, tier)
     js += conv_jobs(tier)
     return js
 
